@@ -142,7 +142,7 @@ class C11(object):
             kind, im = make_image(rnd, g, ns, nf)
             t_lo = rnd.choice([0.0, 1.0, 5.0])
             return {"entry": "sparse_connected_pixels/story", "ns": ns, "nf": nf, "kind": "story", "image": np.abs(im).ravel().tolist(),
-                    "threshold": t_lo, "t_hi": t_lo + rnd.choice([2.0, 6.0, 11.0]), "explicit_zero": rnd.random() < 0.3,
+                    "threshold": t_lo, "t_hi": t_lo + rnd.choice([2.0, 6.0, 11.0]), "explicit_zero": rnd.random() < 0.3, "sibling": rnd.choice([None, None, "common", "default"]),
                     # an unsorted frame of a detector-sized image (more than 65536 pixels) is sorted, then labelled
                     "big_sort": rnd.choice([None, None, None, [300, 300], [512, 384], [260, 270]]), "bseed": rnd.getrandbits(32),
                     "cfg": enginea.draw_cfg(rnd, max_team=4), "gstyle": 0, "cut": 0.0}
@@ -232,7 +232,23 @@ class C11(object):
                         "detail": "%s: %d labels, the frame has %d components above %g (or another partition)" % (what, n, nref, thr)}
             return None
         with contextlib.redirect_stdout(io.StringIO()):
-            low = sf.from_data_cut(im, t_lo, {"threshold": t_lo})
+            sibling = desc.get("sibling")
+            if sibling == "common":
+                # two frames are made with one common header dictionary, then each is given its own threshold
+                hdr_ = {"instrument": "x"}
+                low = sf.from_data_cut(im, t_lo, hdr_)
+                sib_ = sf.from_data_cut(im, t_lo, hdr_)
+                low.meta["intensity"]["threshold"] = t_lo
+                if sib_ is not None:
+                    sib_.meta["intensity"]["threshold"] = t_hi
+            elif sibling == "default":
+                low = sf.from_data_cut(im, t_lo)
+                sib_ = sf.from_data_cut(im, t_lo)
+                low.meta["intensity"]["threshold"] = t_lo
+                if sib_ is not None:
+                    sib_.meta["intensity"]["threshold"] = t_hi
+            else:
+                low = sf.from_data_cut(im, t_lo, {"threshold": t_lo})
             n1 = sf.sparse_connected_pixels(low)
             viol = check(low, t_lo, n1, "frame cut at %g, labelled with its default threshold" % t_lo)
             hi = low.threshold(t_hi) if (np.asarray(low.pixels["intensity"]) > t_hi).any() else None   # empty frames are refused
